@@ -15,7 +15,7 @@ P = {
  "C02": ("exploration", "re-tokenise/re-parse outputs; attribute-justification oracle over the shadow rule set",
          "Every attribute of every start/self-closing tag in every output must be justified by a clause of the property (rule accepting the decoded value, data-*, style rules, forced attribute); bare tags must be allowed bare. Single-tag inputs give exact alignment, documents give existential alignment.", "4/C02",
          "value patterns are evaluated with Go's regexp on the decoded value; one-directional (over-stripping is C07)."),
- "C03": ("exploration", "enumerate all 15 (element,attribute) URL positions x hostile URL generator; WHATWG-style scheme extractor independent of net/url",
+ "C03": ("exploration", "enumerate all 17 (element,attribute) URL positions x hostile URL generator (obfuscations, URL soup, data URIs); WHATWG-style scheme extractor independent of net/url; custom checks and rewriter re-evaluated",
          "All fifteen URL positions are enumerated for every generated URL under many scheme allowlists / relative / rewriter settings; survivors are classified by a browser-style scheme extractor and the harness's own copy of custom checks.", "4/C03",
          "browser URL scheme extraction approximated per WHATWG URL (strip C0/space, remove TAB/LF/CR, scheme grammar)."),
  "C04": ("exploration", "independent UGC vocabulary table; Strict => no markup tokens; DOM in 8 contexts; conforming-document round trip",
@@ -27,10 +27,10 @@ P = {
  "C06": ("exploration", "item-wise alignment of input and output token/character streams",
          "Decoded character data of input and output token streams must be equal item by item (a removed tag is nothing, or exactly one space with AddSpaceWhenStrippingTag); output tags must be a subsequence of input tags.", "4/C06",
          "x/net/html tokenizer defines 'the text an HTML tokenizer reads'."),
- "C07": ("exploration", "conforming-document generator from the shadow policy; byte equality",
+ "C07": ("exploration", "conforming-document generator from the shadow policy; byte equality up to exactly the rel/target additions the link options ask for; well-known CSS values under default handlers",
          "Documents generated from each policy's own vocabulary in canonical serialisation must come back byte for byte (managed attributes excepted); overlapping rules are exercised with values accepted by exactly one of them.", "4/C07",
          "canonical serialisation = what x/net/html Token.String emits."),
- "C08": ("exploration", "well-nested document generator with planted unique markers inside/outside skipped regions",
+ "C08": ("exploration", "well-nested document generator with planted unique markers (text, whitespace-only, comments/PIs/CDATA) inside/outside skipped regions; metamorphic comparison with the skipped content cut out; deep and wide regions",
          "Markers planted inside disallowed skip-content elements must vanish, markers outside must survive, across nesting, modified skip sets and element-pattern policies.", "4/C08",
          "region membership is known from the generator's tree and the shadow skip set."),
  "C09": ("exploration", "stack-balance check over re-tokenised output when the input balances; exhaustive small trees",
@@ -45,28 +45,28 @@ P = {
  "C12": ("exploration", "enumerated media/iframe attribute product incl. sandbox subsets; forced-attribute oracle",
          "crossorigin and sandbox outcomes are checked on every emitted media/iframe tag across supplied values and sandbox subsets (all 2^14 in thorough).", "4/C12",
          "tokens are split on ASCII whitespace."),
- "C13": ("exploration", "Go race detector + concurrent-vs-sequential equality on a 64-goroutine stress (cold-start calls on fresh policies, two policies at once)",
+ "C13": ("exploration", "Go race detector + concurrent-vs-sequential equality on a 64-goroutine stress (never-used instances, cold starts, fresh processes whose first calls are concurrent, two policies at once); history independence against never-used equal policies",
          "Shared policies under 64 goroutines with a tiny input set, built with -race; policies that never sanitised anything are first used under contention; every concurrent result must equal the sequential one, repeated sequential calls must agree, and the baseline recomputed after the stress must be unchanged. A reflection fingerprint of the policy before/after is recorded as an observation.", "4/C13",
          "the race detector only sees executed interleavings; its shadow history is bounded."),
  "C14": ("exploration", "size ladders with deterministic allocation counts + CPU time under RLIMIT_CPU; recover()-monitored panic hunt",
          "Size-parameterised adversarial families per default CSS handler and per structural dimension, measured in allocations and CPU time in CPU-limited child processes; plus a panic hunt over the hostile generators through every entry point.", "4/C14",
          "'polynomial' is restated as no super-quartic growth on the driven ladders."),
- "C15": ("exploration", "entry-point differential under logged reader schedules and both writer kinds; cmd binaries vs library",
+ "C15": ("exploration", "entry-point differential under logged reader schedules, six reader kinds, both writer kinds, giant tokens, partly consumed readers; cmd binaries (stdin up to 17 MiB) vs library",
          "Four entry points, many reader schedules (every split position for short inputs), two writer kinds, and the freshly built cmd tools must all agree byte for byte.", "4/C15",
          "the harness carries its own transcription of the two cmd policies."),
- "C16": ("fault_enumeration", "fault-injecting io.Writer/io.Reader; every write index and every read offset enumerated",
+ "C16": ("fault_enumeration", "fault-injecting io.Writer/io.Reader (four fault modes, sentinel error values, six reader kinds, flushable and unwritable *os.File destinations); every write index and every read offset enumerated",
          "For each driven (policy,input) every write index and every source offset is faulted (permanent, transient, short); error reporting, no-write-after-failure and clean-prefix are checked from the event log.", "4/C16",
          "exhaustive in the fault position for the driven pairs only."),
- "C17": ("exploration", "history differential: same rule set applied through permuted/re-cased/duplicated/toggled builder histories; instance independence",
+ "C17": ("exploration", "history differential: same rule set applied through permuted (rules, commuting switch-like calls, matcher calls in a chain) / re-cased / duplicated / overridden builder histories; instance independence incl. shipped constructors and the zero value",
          "Policies built from the same recorded rule set through different builder-call histories must sanitise probes identically; building or extending another instance must not change a policy's outputs or fingerprint.", "4/C17",
          "switch-like options keep their relative order per key."),
- "C18": ("exploration", "per-handler vocabulary discovery + hostile-fragment insertion at every position",
+ "C18": ("exploration", "per-handler vocabulary discovery + hostile-fragment insertion at every position, in strings, comments and functional notations; malformed-value (unbalanced bracket / open string) oracle; ~4000 undocumented property names",
          "Each default CSS handler's accepted short values get every hostile fragment prepended, appended, inserted at every offset and substituted for every byte; any acceptance refutes. Unknown properties must reject everything.", "4/C18",
          "bounded-exhaustive over <=3-token base values from a ~400-token pool."),
- "C19": ("exploration", "bounded-exhaustive string enumeration + edit-distance-2 mutants vs hand-written recognisers",
+ "C19": ("exploration", "bounded-exhaustive string enumeration + edit-distance-2 mutants (incl. Unicode look-alikes) + keyword dictionary and combinations vs hand-written recognisers",
          "Every string up to length L over each matcher's own characters plus HTML-significant ones, and all single/double edits of documented examples, compared with hand-written recognisers of the documented forms (exhaustive for the stated bound).", "4/C19",
          "recognisers are written from the doc comments; (?i) is Unicode simple folding."),
- "C20": ("exploration", "double-sanitise differential on hostile/conforming inputs for in-class policies",
+ "C20": ("exploration", "double-sanitise differential on hostile/conforming inputs for in-class policies; deterministic URL-normalisation and style-normalisation streams",
          "Sanitize(Sanitize(x)) must equal Sanitize(x) for generated policies of the stated class, StrictPolicy and UGCPolicy (del/ins cite excluded).", "4/C20",
          "class membership is decided on the shadow rule set."),
 }
